@@ -672,6 +672,22 @@ func c04(c *Ctx) {
 		check("limit == 0 ⇒ dropped = len, then emptied", zero, cntAll, empty)
 	}
 
+	// R8 index-map pairing in the de-duplication code
+	c.Rule("R8", "E3 pairing", "de-duplication index maps record len(slice) − 1 right after the append they index (dedupeAttrsFromRecord, addOverCapAttrs)", 2)
+	for _, nm := range []string{"(*recordingSpan).dedupeAttrsFromRecord", "(*recordingSpan).addOverCapAttrs"} {
+		fn := c.Fn(ix, "R8", nm)
+		if fn == nil {
+			continue
+		}
+		n, bad, pos := indexPairing(info, fn)
+		site := at(ix.M, fn.Pos())
+		if bad != "" {
+			site = at(ix.M, pos)
+		}
+		c.Check(n >= 1 && bad == "", "R8", "sdk/trace|"+nm+"|index map ← len(slice) − 1 after append", site, itoa(n)+" index store(s) paired with their append",
+			"later updates of that key overwrite another attribute or index out of range: "+bad)
+	}
+
 	// R6 snapshot complete
 	c.Rule("R6", "E8 fieldcover + provenance", "snapshot() assigns every field of struct snapshot, scalar ones on all paths, each from the like-named span state", 16)
 	ruleSnapshotComplete(c, ix, "R6")
